@@ -378,14 +378,22 @@ def cellOps (M : List Cell) (j : Nat) : List IOp := itemOps M (newItem M j, fals
 theorem numOf_old (M : List Cell) (i : Nat) (ho : (M.getD i default).old = true) :
     numOf M i = (countOld M i + 1) * 10000 := by simp [numOf, ho]
 
+/-- Suppressed: the planner's flag is set and there is a deleted line to move. -/
+def supprAt (M : List Cell) (g : Nat → Bool) (j : Nat) : Bool :=
+  g j && (delLookup M (M.getD j default).line.mkey).isSome
+
+/-- What the planner sends for new-only cell `j` under suppression flags `g`. -/
+def cellOpsG (M : List Cell) (g : Nat → Bool) (j : Nat) : List IOp := itemOps M (newItem M j, g j)
+
 theorem add_phase (M : List Cell) (hs : SortedNum (allNum M))
     (hno : ((olds M).map (·.mkey)).Nodup) (hnn : ((news M).map (·.mkey)).Nodup)
-    (hjunk : noJunk M = true) (js : List Nat) (hjs : ∀ j ∈ js, j ∈ addIdx M) (hnd : js.Nodup)
+    (hjunk : noJunk M = true) (g : Nat → Bool)
+    (js : List Nat) (hjs : ∀ j ∈ js, j ∈ addIdx M) (hnd : js.Nodup)
     (J K : List Nat) (μ : List Bool) (h : MInv M J K μ) (hdisj : ∀ j ∈ js, j ∉ J)
     (hK : ∀ d ∈ K, ∃ j ∈ J, (M.getD j default).line.mkey = (M.getD d default).line.mkey) :
-    ∃ μ' K', iosExec (numbered M μ) (js.flatMap (cellOps M)) = some (numbered M μ') ∧
-      MInv M (js.reverse ++ J) K' μ' ∧
-      (∀ d ∈ K', ∃ j ∈ js.reverse ++ J,
+    ∃ μ' K', iosExec (numbered M μ) (js.flatMap (cellOpsG M g)) = some (numbered M μ') ∧
+      MInv M ((js.filter fun j => !supprAt M g j).reverse ++ J) K' μ' ∧
+      (∀ d ∈ K', ∃ j ∈ (js.filter fun j => !supprAt M g j).reverse ++ J,
         (M.getD j default).line.mkey = (M.getD d default).line.mkey) := by
   induction js generalizing J K μ with
   | nil => exact ⟨μ, K, by simp [iosExec], by simpa using h, by simpa using hK⟩
@@ -395,21 +403,27 @@ theorem add_phase (M : List Cell) (hs : SortedNum (allNum M))
     obtain ⟨hjl, hjn⟩ := mem_addIdx.mp hj
     obtain ⟨hjjs, hnd'⟩ := List.nodup_cons.mp hnd
     have hjs' : ∀ j' ∈ js, j' ∈ addIdx M := fun j' hj' => hjs j' (List.mem_cons_of_mem _ hj')
+    have hdisj0 : ∀ j' ∈ js, j' ∉ J := fun j' hj' => hdisj j' (List.mem_cons_of_mem _ hj')
     have hdisj' : ∀ j' ∈ js, j' ∉ j :: J := by
       intro j' hj' hmem
       rcases List.mem_cons.mp hmem with rfl | hmem
       · exact hjjs hj'
-      · exact hdisj j' (List.mem_cons_of_mem _ hj') hmem
-    have hrev : (j :: js).reverse ++ J = js.reverse ++ (j :: J) := by simp
-    rw [List.flatMap_cons, iosExec_append, hrev]
+      · exact hdisj0 j' hj' hmem
+    have hrev : ∀ (hsup : supprAt M g j = false),
+        ((j :: js).filter fun j => !supprAt M g j).reverse ++ J =
+          (js.filter fun j => !supprAt M g j).reverse ++ (j :: J) := by
+      intro hsup; simp [hsup]
+    rw [List.flatMap_cons, iosExec_append]
     have hfj : μ.getD j false = false := by
       cases hv : μ.getD j false with
       | false => rfl
       | true => exact absurd ((h.newO j hj).mp hv) hjJ
     cases hl : delLookup M (M.getD j default).line.mkey with
     | none =>
-      have hops : cellOps M j = [IOp.add (numOf M j) (M.getD j default).line] := by
-        simp [cellOps, itemOps, newItem, iosDelLookup, hl]
+      have hsup : supprAt M g j = false := by simp [supprAt, hl]
+      rw [hrev hsup]
+      have hops : cellOpsG M g j = [IOp.add (numOf M j) (M.getD j default).line] := by
+        simp [cellOpsG, itemOps, newItem, iosDelLookup, hl]
       have hex := exec_add M hs μ h.len j hjl hfj (by
         intro i hi hm hk
         exact delLookup_none hl i (minv_clash h hnn hjunk hj hjJ hi hm hk) hk)
@@ -422,11 +436,24 @@ theorem add_phase (M : List Cell) (hs : SortedNum (allNum M))
         obtain ⟨j', hj', hm⟩ := hK d hd
         exact ⟨j', List.mem_cons_of_mem _ hj', hm⟩)
     | some d =>
+      cases hg : g j with
+      | true =>
+        have hsup : supprAt M g j = true := by simp [supprAt, hl, hg]
+        have hops : cellOpsG M g j = [] := by
+          simp [cellOpsG, itemOps, newItem, iosDelLookup, hl, hg]
+        have hfil : ((j :: js).filter fun j => !supprAt M g j) = js.filter fun j => !supprAt M g j := by
+          simp [hsup]
+        rw [hops, hfil]
+        simp only [iosExec, List.foldlM_nil, Option.bind_some, pure]
+        exact ih hjs' hnd' J K μ h hdisj0 hK
+      | false =>
+      have hsup : supprAt M g j = false := by simp [supprAt, hg]
+      rw [hrev hsup]
       obtain ⟨hd, hdm⟩ := delLookup_some hl
       obtain ⟨hdl, hdo⟩ := mem_delIdx.mp hd
       simp only [Cell.oldOnly, Bool.and_eq_true] at hdo
-      have hops : cellOps M j = [IOp.move (numOf M d) (numOf M j) (M.getD j default).line] := by
-        simp [cellOps, itemOps, newItem, iosDelLookup, hl, numOf_old M d hdo.1]
+      have hops : cellOpsG M g j = [IOp.move (numOf M d) (numOf M j) (M.getD j default).line] := by
+        simp [cellOpsG, itemOps, newItem, iosDelLookup, hl, hg, numOf_old M d hdo.1]
       have huniq : ∀ i ∈ delIdx M,
           (M.getD i default).line.mkey = (M.getD j default).line.mkey → i = d := by
         intro i hi hk
@@ -496,28 +523,75 @@ theorem del_phase (M : List Cell) (hs : SortedNum (allNum M)) (is : List Nat)
     simp only [this, false_and, if_false]
     exact htrue i' (List.mem_cons_of_mem _ hi')
 
-theorem minv_final {M : List Cell} {J K : List Nat} {μ : List Bool} (h : MInv M J K μ)
-    (hjunk : noJunk M = true) (hJ : ∀ j ∈ addIdx M, j ∈ J)
-    (hK : ∀ i ∈ delIdx M, i ∈ K ∨
-      ∃ j ∈ J, (M.getD j default).line.mkey = (M.getD i default).line.mkey) :
-    μ = newMask M := by
+/-- The device list at the end: the target, except that the line of every suppressed move
+(`S`: the new-only cells whose move was suppressed) still sits at its old position. -/
+def finalMask (M : List Cell) (S : List Nat) : List Bool :=
+  (List.range M.length).map fun i =>
+    if (M.getD i default).new then (M.getD i default).old || !S.contains i
+    else (M.getD i default).old &&
+      S.any fun j => (M.getD j default).line.mkey == (M.getD i default).line.mkey
+
+theorem finalMask_getD (M : List Cell) (S : List Nat) (i : Nat) (hi : i < M.length) :
+    (finalMask M S).getD i false =
+      if (M.getD i default).new then (M.getD i default).old || !S.contains i
+      else (M.getD i default).old &&
+        S.any fun j => (M.getD j default).line.mkey == (M.getD i default).line.mkey := by
+  simp [finalMask, hi, List.getD_eq_getElem?_getD]
+
+theorem finalMask_nil (M : List Cell) : finalMask M [] = newMask M := by
   apply List.ext_getElem
-  · simp [newMask, h.len]
+  · simp [finalMask, newMask]
+  · intro i h1 h2
+    simp only [finalMask, newMask, List.getElem_map, List.getElem_range]
+    have hi : i < M.length := by simpa [finalMask] using h1
+    have hc : M.getD i default = M[i] := by simp [hi, List.getD_eq_getElem?_getD]
+    rw [hc]
+    cases M[i].new <;> simp
+
+theorem minv_final {M : List Cell} {J K : List Nat} {μ : List Bool} (h : MInv M J K μ)
+    (hjunk : noJunk M = true) (S : List Nat) (hJ : ∀ j ∈ addIdx M, (j ∈ J ↔ j ∉ S))
+    (hK : ∀ i ∈ delIdx M, ((i ∈ K ∨
+      ∃ j ∈ J, (M.getD j default).line.mkey = (M.getD i default).line.mkey) ↔
+      ¬ ∃ j ∈ S, (M.getD j default).line.mkey = (M.getD i default).line.mkey)) :
+    μ = finalMask M S := by
+  apply List.ext_getElem
+  · simp [finalMask, h.len]
   · intro i h1 h2
     have hi : i < M.length := by rw [← h.len]; exact h1
     have e1 : μ[i] = μ.getD i false := by simp [List.getD_eq_getElem?_getD, h1]
-    have e2 : (newMask M)[i] = (newMask M).getD i false := by simp [List.getD_eq_getElem?_getD, h2]
-    rw [e1, e2, newMask_getD M i hi]
+    have e2 : (finalMask M S)[i] = (finalMask M S).getD i false := by
+      simp [List.getD_eq_getElem?_getD, h2]
+    rw [e1, e2, finalMask_getD M S i hi]
     have hc : M.getD i default = M[i] := by simp [hi, List.getD_eq_getElem?_getD]
     have hj := (List.all_eq_true.mp hjunk) M[i] (List.getElem_mem _)
     rw [← hc] at hj
     cases ho : (M.getD i default).old <;> cases hn : (M.getD i default).new
     · simp [ho, hn] at hj
     · have hmem : i ∈ addIdx M := mem_addIdx.mpr ⟨hi, by simp [Cell.newOnly, ho, hn]⟩
-      exact (h.newO i hmem).mpr (hJ i hmem)
+      simp only [if_true, Bool.false_or]
+      rw [Bool.eq_iff_iff, h.newO i hmem, hJ i hmem]
+      simp
     · have hmem : i ∈ delIdx M := mem_delIdx.mpr ⟨hi, by simp [Cell.oldOnly, ho, hn]⟩
-      exact (h.oldO i hmem).mpr (hK i hmem)
-    · exact h.both i hi (by simp [Cell.both, ho, hn])
+      simp only [Bool.false_eq_true, if_false, Bool.true_and]
+      have h3 := (h.oldO i hmem).trans (hK i hmem)
+      have h4 : (S.any fun j => (M.getD j default).line.mkey == (M.getD i default).line.mkey) = true ↔
+          ∃ j ∈ S, (M.getD j default).line.mkey = (M.getD i default).line.mkey := by
+        simp [List.any_eq_true]
+      cases hv : μ.getD i false with
+      | false =>
+        have := h3.mp hv
+        rw [← h4] at this
+        simpa using this
+      | true =>
+        symm
+        rw [h4]
+        apply Classical.byContradiction
+        intro hcon
+        have := h3.mpr hcon
+        rw [hv] at this
+        exact Bool.noConfusion this
+    · simp only [if_true, Bool.true_or]
+      exact h.both i hi (by simp [Cell.both, ho, hn])
 
 /-! ### The resequenced device list -/
 
@@ -724,19 +798,23 @@ theorem delsOf_eq (M : List Cell) :
   simp only [Cell.oldOnly, Bool.and_eq_true] at ho
   simp [numOf_old M i ho.1]
 
-/-- Executing "all adds / moves top-down, then the remaining deletes bottom-up" on the
-resequenced device ends in exactly the target. -/
-theorem exec_core (M : List Cell) (hjunk : noJunk M = true) (hruns : runsShort M)
-    (hno : ((olds M).map (·.mkey)).Nodup) (hnn : ((news M).map (·.mkey)).Nodup) :
-    iosExec (numbered M (oldMask M)) ((addIdx M).flatMap (cellOps M) ++ delsOf M) =
-      some (numbered M (newMask M)) := by
+/-- For any suppression flags `g`: executing "adds / unsuppressed moves top-down, then the
+remaining deletes bottom-up" on the resequenced device is accepted command by command and ends in
+the target with the lines of the suppressed moves left at their old positions. -/
+theorem exec_general (M : List Cell) (hjunk : noJunk M = true) (hruns : runsShort M)
+    (hno : ((olds M).map (·.mkey)).Nodup) (hnn : ((news M).map (·.mkey)).Nodup)
+    (g : Nat → Bool) :
+    iosExec (numbered M (oldMask M)) ((addIdx M).flatMap (cellOpsG M g) ++ delsOf M) =
+      some (numbered M (finalMask M ((addIdx M).filter (supprAt M g)))) := by
   have hs := allNum_sorted M hjunk hruns
   have haddnd : (addIdx M).Nodup := List.Nodup.sublist List.filter_sublist List.nodup_range
   have hdelnd : (delIdx M).Nodup := List.Nodup.sublist List.filter_sublist List.nodup_range
-  obtain ⟨μ1, K1, hex1, hinv1, hK1⟩ := add_phase M hs hno hnn hjunk (addIdx M) (fun _ h => h) haddnd
-    [] [] (oldMask M) (minv_init M) (by simp) (by simp)
+  obtain ⟨μ1, K1, hex1, hinv1, hK1⟩ := add_phase M hs hno hnn hjunk g (addIdx M) (fun _ h => h)
+    haddnd [] [] (oldMask M) (minv_init M) (by simp) (by simp)
   rw [iosExec_append, hex1, Option.bind_some, delsOf_eq]
-  have hJmem : ∀ j, j ∈ (addIdx M).reverse ++ [] ↔ j ∈ addIdx M := by simp
+  have hJmem : ∀ j, j ∈ ((addIdx M).filter fun j => !supprAt M g j).reverse ++ [] ↔
+      (j ∈ addIdx M ∧ supprAt M g j = false) := by
+    intro j; simp [List.mem_filter]
   -- an old-only cell is looked up iff an inserted cell has its mkey
   have hlook : ∀ i ∈ delIdx M, (countOld M i ∈ movedOf M ↔
       ∃ j ∈ addIdx M, (M.getD j default).line.mkey = (M.getD i default).line.mkey) := by
@@ -763,35 +841,107 @@ theorem exec_core (M : List Cell) (hjunk : noJunk M = true) (hruns : runsShort M
   have his : ∀ i ∈ is, i ∈ delIdx M := fun i hi => List.mem_reverse.mp (List.mem_filter.mp hi).1
   have hisnd : is.Nodup :=
     List.Nodup.sublist List.filter_sublist ((List.reverse_perm _).nodup_iff.mpr hdelnd)
+  have hisnm : ∀ i ∈ is, countOld M i ∉ movedOf M := by
+    intro i hi
+    have := (List.mem_filter.mp hi).2
+    simpa using this
   have htrue : ∀ i ∈ is, μ1.getD i false = true := by
     intro i hi
-    have hnm : countOld M i ∉ movedOf M := by
-      have := (List.mem_filter.mp hi).2
-      simpa using this
     cases hv : μ1.getD i false with
     | true => rfl
     | false =>
       exfalso
-      apply hnm
+      apply hisnm i hi
       rw [hlook i (his i hi)]
       rcases (hinv1.oldO i (his i hi)).mp hv with hk | ⟨j, hj, hm⟩
       · obtain ⟨j, hj, hm⟩ := hK1 i hk
-        exact ⟨j, (hJmem j).mp hj, hm⟩
-      · exact ⟨j, (hJmem j).mp hj, hm⟩
+        exact ⟨j, ((hJmem j).mp hj).1, hm⟩
+      · exact ⟨j, ((hJmem j).mp hj).1, hm⟩
   obtain ⟨μ2, hex2, hinv2⟩ := del_phase M hs is his hisnd _ K1 μ1 hinv1 htrue
   rw [hex2]
   congr 2
   apply minv_final hinv2 hjunk
-  · intro j hj; exact (hJmem j).mpr hj
+  · intro j hj
+    rw [hJmem]
+    simp [List.mem_filter, hj]
   · intro i hi
-    by_cases hm : countOld M i ∈ movedOf M
-    · right
-      obtain ⟨j, hj, hm'⟩ := (hlook i hi).mp hm
-      exact ⟨j, (hJmem j).mpr hj, hm'⟩
-    · left
-      apply List.mem_append_left
-      apply List.mem_reverse.mpr
-      apply List.mem_filter.mpr
-      exact ⟨List.mem_reverse.mpr hi, by simpa using hm⟩
+    constructor
+    · rintro hL ⟨j', hj', hm'⟩
+      obtain ⟨hj'a, hj's⟩ := List.mem_filter.mp hj'
+      have hex : ∃ j ∈ ((addIdx M).filter fun j => !supprAt M g j).reverse ++ [],
+          (M.getD j default).line.mkey = (M.getD i default).line.mkey := by
+        rcases hL with hL | hL
+        · rcases List.mem_append.mp hL with hL | hL
+          · exfalso
+            apply hisnm i (List.mem_reverse.mp hL)
+            rw [hlook i hi]
+            exact ⟨j', hj'a, hm'⟩
+          · exact hK1 i hL
+        · exact hL
+      obtain ⟨j, hj, hm⟩ := hex
+      obtain ⟨hja, hjs⟩ := (hJmem j).mp hj
+      obtain ⟨hjl, hjn⟩ := mem_addIdx.mp hja
+      obtain ⟨hjl', hjn'⟩ := mem_addIdx.mp hj'a
+      simp only [Cell.newOnly, Bool.and_eq_true] at hjn hjn'
+      have := new_mkey_inj M hnn hjl hjl' hjn.1 hjn'.1 (by rw [hm, hm'])
+      subst this
+      rw [hjs] at hj's
+      exact Bool.noConfusion hj's
+    · intro hno'
+      by_cases hm : countOld M i ∈ movedOf M
+      · right
+        obtain ⟨j, hj, hm'⟩ := (hlook i hi).mp hm
+        refine ⟨j, (hJmem j).mpr ⟨hj, ?_⟩, hm'⟩
+        cases hsj : supprAt M g j with
+        | false => rfl
+        | true => exact absurd ⟨j, List.mem_filter.mpr ⟨hj, hsj⟩, hm'⟩ hno'
+      · left
+        apply List.mem_append_left
+        apply List.mem_reverse.mpr
+        apply List.mem_filter.mpr
+        exact ⟨List.mem_reverse.mpr hi, by simpa using hm⟩
+
+/-- No suppression: exactly the target. -/
+theorem exec_core (M : List Cell) (hjunk : noJunk M = true) (hruns : runsShort M)
+    (hno : ((olds M).map (·.mkey)).Nodup) (hnn : ((news M).map (·.mkey)).Nodup) :
+    iosExec (numbered M (oldMask M)) ((addIdx M).flatMap (cellOps M) ++ delsOf M) =
+      some (numbered M (newMask M)) := by
+  have := exec_general M hjunk hruns hno hnn (fun _ => false)
+  have hS : (addIdx M).filter (supprAt M fun _ => false) = [] := by
+    simp [List.filter_eq_nil_iff, supprAt]
+  rw [hS, finalMask_nil] at this
+  exact this
+
+/-! ### The plan of every `M`, with its suppression flags as a function of the cell -/
+
+theorem flags_as_fun (l : List Nat) (hnd : l.Nodup) (flags : List Bool) (hlen : flags.length = l.length) :
+    ∃ g : Nat → Bool, flags = l.map g := by
+  induction l generalizing flags with
+  | nil => exact ⟨fun _ => false, by simpa using hlen⟩
+  | cons a l ih =>
+    cases flags with
+    | nil => simp at hlen
+    | cons f fs =>
+      obtain ⟨ha, hnd'⟩ := List.nodup_cons.mp hnd
+      obtain ⟨g', hg'⟩ := ih hnd' fs (by simpa using hlen)
+      refine ⟨fun x => if x = a then f else g' x, ?_⟩
+      simp only [List.map_cons, if_true, hg']
+      congr 1
+      apply List.map_congr_left
+      intro x hx
+      have : x ≠ a := by intro e; subst e; exact ha hx
+      simp [this]
+
+theorem plan_general (M : List Cell) (hboth : (M.any fun c => c.old && c.new) = true)
+    (hnn : ((news M).map (·.mkey)).Nodup) :
+    ∃ g : Nat → Bool, planIOS M = (addIdx M).flatMap (cellOpsG M g) ++ delsOf M := by
+  obtain ⟨flags, hlen, hplan⟩ := planIOS_shape M hboth (lookups_nodup M hnn)
+  have hplan' : planIOS M =
+      (((addIdx M).map (newItem M)).zip flags).flatMap (itemOps M) ++ delsOf M := hplan
+  have haddnd : (addIdx M).Nodup := List.Nodup.sublist List.filter_sublist List.nodup_range
+  obtain ⟨g, hg⟩ := flags_as_fun (addIdx M) haddnd flags hlen
+  refine ⟨g, ?_⟩
+  rw [hplan', hg, List.zip_map', List.flatMap_map]
+  rfl
 
 end NA.Acl
